@@ -198,6 +198,11 @@ def run_plan(plan: dict) -> dict:
                 violation(out, "harness", "no_objective_evaluation_recorded", f"{where}: {pid}")
                 continue
             f0, f1 = ev[0][1], ev[-1][1]
+            if math.isnan(f0):
+                # degenerate model (e.g. a two-event joint model fitted for 3 iterations with an event shape of e^75): the objective is
+                # NaN at the starting point already, so "not worse than the start" says nothing; finiteness of the output was checked above
+                C["skip.start_objective_nan"] += 1
+                continue
             C["probe.scipy_non_worsening_checked"] += 1
             if math.isnan(f1) or f1 > f0 + 1e-6 * (1 + abs(f0)):
                 violation(out, "non_worsening", f"objective_worse_than_start:{info['family']}", f"{where}: {pid}: f(start)={f0!r} f(returned)={f1!r} after {len(ev)} evaluations")
